@@ -5,6 +5,7 @@ import (
 	"github.com/invopop/gobl/currency"
 	"github.com/invopop/gobl/l10n"
 	"github.com/invopop/gobl/num"
+	"github.com/invopop/validation"
 )
 
 // CategoryTotal groups together all rates inside a given category.
@@ -57,6 +58,39 @@ type Total struct {
 
 	// Precise sum in the background, in case needed for calculations
 	sum num.Amount
+}
+
+// Validate checks the contents of a tax total that may not have been calculated
+// from the document's own lines, as is the case of the totals stored alongside a
+// reference to another document.
+func (t *Total) Validate() error {
+	if t == nil {
+		return nil
+	}
+	return validation.ValidateStruct(t,
+		validation.Field(&t.Categories),
+	)
+}
+
+// Validate checks the rates of the category total.
+func (ct *CategoryTotal) Validate() error {
+	if ct == nil {
+		return nil
+	}
+	return validation.ValidateStruct(ct,
+		validation.Field(&ct.Rates),
+	)
+}
+
+// Validate ensures that the extensions used to group the rate are defined and
+// have acceptable values, just like those of the tax combos they come from.
+func (rt *RateTotal) Validate() error {
+	if rt == nil {
+		return nil
+	}
+	return validation.ValidateStruct(rt,
+		validation.Field(&rt.Ext),
+	)
 }
 
 // PreciseAmount contains the intermediary amount generated from the calculator
